@@ -22,7 +22,7 @@ CONTAINER_OPS = ('fr', 'bk', 'pb', 'pop', 'cl', 'er', 'er1', 'ins', 'ins1', 'rs'
 MODELLED_OPS = {'pb': 'dpb', 'pop': 'dpop', 'cl': 'dcl', 'af': '(da %d)', 'an': '(dan %d)', 'as': '(dan %d)',
                 'ai': '(dai %d)'}
 # steps that write to the buffer (the chains run in canary mode)
-WRITE_DATA_OPS = ('w', 'r', 'a', 'pb', 'pop', 'cl', 'er', 'er1', 'ins', 'ins1', 'rs', 'rv', 'af', 'an', 'as', 'ai',
+WRITE_DATA_OPS = ('w', 'rw', 'r', 'a', 'pb', 'pop', 'cl', 'er', 'er1', 'ins', 'ins1', 'rs', 'rv', 'af', 'an', 'as', 'ai',
                   'insr', 'insi')
 CANARY_SLACK = 1024       # > the largest write an enumerated chain performs (counts are capped at 512)
 CANARY_FILL = 0xC3
@@ -375,13 +375,13 @@ class Spec:
             rel = lf['off'] - cur + (base_off if first else 0)
             if lf['kind'] == 'array':
                 N = lf['count']
-                if op == 'd':
+                if op in ('d', 'D'):
                     ops.append('(ad %d)' % N)
-                elif op in ('e', 'w'):
-                    ops.append('(%s %d %d)' % ('ae' if op == 'e' else 'aw', N, arg))
+                elif op in ('e', 'w', 'E', 'W'):
+                    ops.append('(%s %d %d)' % ('ae' if op in ('e', 'E') else 'aw', N, arg))
                 elif op == 'a':
                     ops.append('(aa %d %d)' % (N, arg))
-                cpp = 'l:%d:%s' % (idx, op) + ('' if op in ('g', 'd') else ':%d' % arg)
+                cpp = 'l:%d:%s' % (idx, op) + ('' if op in ('g', 'd', 'D') else ':%d' % arg)
             elif op == 'g':
                 ops.append('(f %d %d)' % (rel, lf['size']))
                 cpp = 'l:%d:g' % idx
@@ -414,8 +414,10 @@ class Spec:
                 return 'n', ['dn'], None
             if k == 'dd':
                 return 'dd', ['dd'], None
-            if k in ('e', 'w'):
-                return '%s:%d' % (k, st[1]), ['(%s %d)' % ('de' if k == 'e' else 'dw', st[1])], None
+            if k in ('e', 'w', 're', 'rw'):
+                return '%s:%d' % (k, st[1]), ['(%s %d)' % ('de' if k in ('e', 're') else 'dw', st[1])], None
+            if k == 'rn':
+                return 'rn', ['dn'], None
             if k == 'r':
                 return 'r:%d' % st[1], ['(dr %d)' % st[1]], None
             if k == 'a':
@@ -455,7 +457,7 @@ class Spec:
                 N = lf['count']
                 if op != 'g':
                     ch.need(a + N)
-                if op in ('e', 'w') and arg >= N:
+                if op in ('e', 'w', 'E', 'W') and arg >= N:
                     ch.pre_ok = False
                 if op == 'a' and arg > N:
                     ch.pre_ok = False
@@ -530,7 +532,7 @@ class Spec:
             d, p = pos[1], pos[2]
             ls = d['lenSize']
             ch.need(p + ls)
-            if k in ('n',):
+            if k in ('n', 'rn'):
                 return None
             if k == 'r' or k == 'a':
                 ch.need(p + ls + st[1])
@@ -575,7 +577,7 @@ class Spec:
             if p + ls + n >= GUARDED - (1 << 20):
                 ch.huge = True
             ch.need(p + ls + n)
-            if k in ('e', 'w') and st[1] >= n:
+            if k in ('e', 'w', 're', 'rw') and st[1] >= n:
                 ch.pre_ok = False
             return None
         raise ValueError('step %r on %s' % (st, t))
@@ -591,7 +593,7 @@ class Spec:
             ch.lean += ops
             ch.kind = kind_name(pos, st)
             ch.view_begin = view_begin(pos)
-            ch.mutating = (st[0] == 'leaf' and st[2] in ('s', 'w', 'a')) or (pos[0] == 'data' and st[0] in WRITE_DATA_OPS)
+            ch.mutating = (st[0] == 'leaf' and st[2] in ('s', 'w', 'W', 'a')) or (pos[0] == 'data' and st[0] in WRITE_DATA_OPS)
             before = ch.needs_end
             self.cur = ch
             try:
@@ -825,7 +827,8 @@ def kind_name(pos, st):
     t, k = pos[0], st[0]
     if k == 'leaf':
         op = {'g': 'get', 's': 'set', 'd': 'array.data', 'e': 'array.elem.read', 'w': 'array.elem.write',
-              'a': 'array.assign_range'}[st[2]]
+              'a': 'array.assign_range', 'D': 'array.raw.data', 'E': 'array.raw.elem.read',
+              'W': 'array.raw.elem.write'}[st[2]]
         where = {'msg': 'message', 'msghdr': 'message.header', 'entry': 'entry', 'dim': 'group.header'}.get(t, t)
         return '%s.field.%s' % (where, op)
     if k in CONTAINER_OPS:
@@ -835,7 +838,8 @@ def kind_name(pos, st):
                           'ai': 'assign_ilist', 'insr': 'insert_range', 'insi': 'insert_ilist'}[k]
     names = {'H': 'get_header', 'G': 'group_view', 'D': 'data_view', 'z': 'size_bytes', 'n': 'size', 'b': 'begin',
              'i': 'operator[]', '+': 'iterator.inc', '*': 'iterator.deref', 'dd': 'data', 'e': 'elem.read',
-             'w': 'elem.write', 'r': 'resize', 'a': 'assign_range'}
+             'w': 'elem.write', 'r': 'resize', 'a': 'assign_range', 'rn': 'raw.size', 're': 'raw.elem.read',
+             'rw': 'raw.elem.write'}
     extra = ''
     if t == 'iter' and k == '+':
         extra = '.flat' if is_flat(pos[1]['level']) else '.nested'
@@ -872,6 +876,13 @@ def enum_chains(spec, max_entries=2, max_chains=400, extra_counts=(), only_data=
                     add(prefix + [('leaf', i, 'e', N - 1)])
                     add(prefix + [('leaf', i, 'w', N - 1)])
                 add(prefix + [('leaf', i, 'a', N)])
+                # the same accesses through the byte view `raw()` of the array: a derived view must carry the end
+                # pointer of the view it was derived from
+                add(prefix + [('leaf', i, 'D', 0)])
+                if N > 0:
+                    add(prefix + [('leaf', i, 'E', 0)])
+                    add(prefix + [('leaf', i, 'E', N - 1)])
+                    add(prefix + [('leaf', i, 'W', N - 1)])
             else:
                 add(prefix + [('leaf', i, 'g', 0)])
                 add(prefix + [('leaf', i, 's', _bits(lf['size']))])
@@ -927,6 +938,9 @@ def enum_chains(spec, max_entries=2, max_chains=400, extra_counts=(), only_data=
                 add(dp + [('e', 0)])
                 add(dp + [('e', n - 1)])
                 add(dp + [('w', n - 1)])
+                add(dp + [('re', n - 1)])
+                add(dp + [('rw', n - 1)])
+            add(dp + [('rn',)])
             # counts: the stored one, the one that fits the image exactly, and one more (bounded: the driver
             # allocates the source range)
             fit = spec.L - (p[2] + d['lenSize'])
